@@ -1,4 +1,186 @@
-import AGH.Spec.QLogFile
+/-
+C20 — query-log files read backwards completely; timestamp seeks land on the entry.
+Property theorems only (helper lemmas live in AGH/Lemmas/QLog*.lean).
+
+All theorems are about the executable model `AGH/Model/QLogFile.lean` (the very
+definitions the driver runs against the Go code), for EVERY parameter pair with
+`16 KiB ≤ maxEntry ≤ bufSize` (the Go constants 16 KiB / 1.6 MB are one
+instance, `C20_goParams_ok`), every line file, every reader state.
+-/
+import AGH.Lemmas.QLogSim
 namespace AGH.C20
-theorem C20_placeholder : True := trivial
+open AGH
+
+/-- The constants of the unchanged tree satisfy the hypotheses on `P`. -/
+theorem C20_goParams_ok : entryLimit ≤ goParams.maxEntry ∧ goParams.maxEntry ≤ goParams.bufSize := by
+  decide
+
+/-- **Reverse reading.**  For any file whose lines are non-empty, newline-free and
+shorter than the 16 KiB limit — whatever its size, wherever the 1.6 MB windows
+fall — `SeekStart` followed by `n` calls of `ReadNext` returns the last `n`
+lines in reverse order, each exactly once, and reports `io.EOF` exactly when
+`n` exceeds the number of lines.  (`n = lines.length + 1`: the whole file,
+then EOF.) -/
+theorem C20_readall (P : Params) (hP1 : entryLimit ≤ P.maxEntry) (hP2 : P.maxEntry ≤ P.bufSize)
+    (lines : List Bytes) (hok : ∀ l ∈ lines, lineOK l = true) (q : QState) (n : Nat) :
+    ∃ q' rs, fReadMany P (fileOfLines lines) n (seekStart (fileOfLines lines) q) [] =
+        (q', rs, if n > lines.length then some Err.eof else none) ∧
+      rs.map (fun r => (fileOfLines lines).slice r.1 r.2) = lines.reverse.take n := by
+  obtain ⟨q', rs, h1, h2, _⟩ :=
+    fReadMany_filePos P lines hP1 hP2 hok n lines.length _ [] (filePos_seekStart P lines q)
+  exact ⟨q', rs, by simpa using h1, by simpa using h2⟩
+
+/-- **Seek to a stored timestamp.**  In a line file with strictly increasing
+non-zero timestamps (below 2⁶³ bytes, as every Go file is), seeking the
+timestamp of entry `i` succeeds — the depth guard, the same-line guard and the
+end-of-file guard never fire — and the following `n` reads return entries
+`i, i-1, …` (then `io.EOF`). -/
+theorem C20_seek_found (P : Params) (hP1 : entryLimit ≤ P.maxEntry) (hP2 : P.maxEntry ≤ P.bufSize)
+    (tsOf : Bytes → Int) (lines : List Bytes) (ctx : SeekCtx tsOf lines)
+    (hsize : (render lines).length < 2 ^ 63) (i : Nat) (hi : i < lines.length) (q : QState) (n : Nat) :
+    ∃ q1 pos d, seekTS P (fileOfLines lines) tsOf q (tsOf lines[i]) = (q1, .ok (pos, d)) ∧
+      ∃ q' rs, fReadMany P (fileOfLines lines) n q1 [] =
+          (q', rs, if n > i + 1 then some Err.eof else none) ∧
+        rs.map (fun r => (fileOfLines lines).slice r.1 r.2) = ((lines.take (i + 1)).reverse).take n := by
+  obtain ⟨d, hseek⟩ := seekTS_found P tsOf _ lines hP1 ctx hsize i hi rfl q
+  refine ⟨_, _, d, hseek, ?_⟩
+  have hpos : FilePos P lines (i + 1)
+      { q with hasBuf := false, position := (render (lines.take (i + 1))).length - 1 } :=
+    ⟨by omega, rfl, by intro h; simp at h⟩
+  obtain ⟨q', rs, h1, h2, _⟩ := fReadMany_filePos P lines hP1 hP2 ctx.ok n (i + 1) _ [] hpos
+  exact ⟨q', rs, by simpa using h1, h2⟩
+
+/-- **Seek to an absent timestamp.**  It terminates (the model is total) with
+`tooEarly` when the timestamp precedes every entry (also for the empty file),
+`tooLate` when it follows every entry, `notFound` otherwise — never by the
+depth guard — and the position is untouched, so subsequent reads continue
+exactly where they were. -/
+theorem C20_seek_absent (P : Params) (hP1 : entryLimit ≤ P.maxEntry)
+    (tsOf : Bytes → Int) (lines : List Bytes) (ctx : SeekCtx tsOf lines)
+    (hsize : (render lines).length < 2 ^ 63) (target : Int)
+    (habs : ∀ l ∈ lines, tsOf l ≠ target) (q : QState) :
+    seekTS P (fileOfLines lines) tsOf q target =
+      ({ q with hasBuf := false },
+       .error (if ∀ l ∈ lines, target < tsOf l then Err.tooEarly
+               else if ∀ l ∈ lines, tsOf l < target then Err.tooLate else Err.notFound)) :=
+  seekTS_absent P tsOf target lines hP1 ctx hsize habs q
+
+/-- …and reads after a failed seek continue where they were: with `c` lines left
+before, the next `n` reads return lines `c-1, c-2, …`. -/
+theorem C20_seek_absent_then_read (P : Params) (hP1 : entryLimit ≤ P.maxEntry) (hP2 : P.maxEntry ≤ P.bufSize)
+    (tsOf : Bytes → Int) (lines : List Bytes) (ctx : SeekCtx tsOf lines)
+    (hsize : (render lines).length < 2 ^ 63) (target : Int)
+    (habs : ∀ l ∈ lines, tsOf l ≠ target) (q : QState) (c : Nat) (hq : FilePos P lines c q) (n : Nat) :
+    ∃ q' rs, fReadMany P (fileOfLines lines) n (seekTS P (fileOfLines lines) tsOf q target).1 [] =
+        (q', rs, if n > c then some Err.eof else none) ∧
+      rs.map (fun r => (fileOfLines lines).slice r.1 r.2) = ((lines.take c).reverse).take n := by
+  rw [seekTS_absent P tsOf target lines hP1 ctx hsize habs q]
+  have hq' : FilePos P lines c { q with hasBuf := false } := ⟨hq.1, hq.2.1, by intro h; simp at h⟩
+  obtain ⟨q', rs, h1, h2, _⟩ := fReadMany_filePos P lines hP1 hP2 ctx.ok n c _ [] hq'
+  exact ⟨q', rs, by simpa using h1, h2⟩
+
+/-- **The model meets the spec, for every operation history.**  For one or more
+files (rotated … current), each below 2⁶³ bytes, WHATEVER their content
+(files outside the property's domain carry no promise), and every finite
+history of `SeekStart` / `n × ReadNext` / `seekTS` at reader level and at file
+level in any interleaving: the monitor that the driver runs on the
+implementation's observations accepts every step of the model.  Proved by a
+simulation (`Sim`) between the monitor's promise — the exact sequence of
+lines still to be returned — and the reader's byte position and buffer. -/
+theorem C20_model_meets_spec (P : Params) (hP1 : entryLimit ≤ P.maxEntry) (hP2 : P.maxEntry ≤ P.bufSize)
+    (tsOf : Bytes → Int) (ds : List FileDesc) (hne : ds ≠ [])
+    (hsmall : ∀ d ∈ ds, (render d.lines).length < 2 ^ 63) (ops : List Op) :
+    monitorRun P (ds.map fileOfDesc) tsOf (mkCtx tsOf ds) (rInit ds.length) (specInit ds.length) ops = true := by
+  suffices h : ∀ (ops : List Op) (r : RState) (sp : SpecState), Sim P ds sp r →
+      monitorRun P (ds.map fileOfDesc) tsOf (mkCtx tsOf ds) r sp ops = true from
+    h ops _ _ (sim_init P ds)
+  intro ops
+  induction ops with
+  | nil => intro r sp _; rfl
+  | cons op ops ih =>
+    intro r sp hsim
+    obtain ⟨h1, h2⟩ := step_sim P tsOf ds hP1 hP2 hne hsmall sp r hsim op
+    simp only [monitorRun, fsOf] at *
+    rw [h1, ih _ _ h2]
+    rfl
+
+/-- **Rotated + current, reading.**  After `SeekStart`, `n` reads of the multi-file
+reader return the newest file's lines last-to-first, then the older file's
+(crossing the boundary, also through empty files), each exactly once, and
+`io.EOF` exactly when `n` exceeds the total. -/
+theorem C20_two_files_readall (P : Params) (hP1 : entryLimit ≤ P.maxEntry) (hP2 : P.maxEntry ≤ P.bufSize)
+    (ds : List FileDesc) (hne : ds ≠ []) (hrd : ∀ d ∈ ds, readable d = true)
+    (r : RState) (hlen : r.files.length = ds.length) (n : Nat) :
+    ∃ r' xs, rReadMany P (ds.map fileOfDesc) n (rSeekStart (ds.map fileOfDesc) r) [] =
+        (r', xs, if n > (allRev ds).length then some Err.eof else none) ∧
+      xs.map (fun x => ((ds.map fileOfDesc).getD x.1 noFile).slice x.2.1 x.2.2) = (allRev ds).take n := by
+  obtain ⟨hp, hl⟩ := rSeekStart_rpos P ds hne r hlen hrd
+  obtain ⟨r', xs, h1, h2, _, _⟩ := rReadMany_spec P ds hP1 hP2 hrd n _ _ [] hl hp
+  exact ⟨r', xs, by simpa using h1, h2⟩
+
+/-- **Rotated + current, seeking.**  With timestamps strictly increasing across the
+files, seeking the timestamp of entry `k` of file `j` makes every newer file
+report too-early (also an empty one), finds the entry in file `j`, and the
+following `n` reads return that entry, the older entries of file `j`, then the
+older files — `fromEntry ds j k`. -/
+theorem C20_two_files (P : Params) (hP1 : entryLimit ≤ P.maxEntry) (hP2 : P.maxEntry ≤ P.bufSize)
+    (tsOf : Bytes → Int) (ds : List FileDesc) (g : GlobalCtx tsOf ds)
+    (j k : Nat) (d : FileDesc) (hd : ds[j]? = some d) (hk : k < d.lines.length)
+    (r : RState) (hlen : r.files.length = ds.length) (n : Nat) :
+    ∃ r1, rSeekTS P (ds.map fileOfDesc) tsOf r (tsOf d.lines[k]) = (r1, .ok ()) ∧
+      ∃ r' xs, rReadMany P (ds.map fileOfDesc) n r1 [] =
+          (r', xs, if n > (fromEntry ds j k).length then some Err.eof else none) ∧
+        xs.map (fun x => ((ds.map fileOfDesc).getD x.1 noFile).slice x.2.1 x.2.2) =
+          (fromEntry ds j k).take n := by
+  have hj : j < ds.length := (List.getElem?_eq_some_iff.1 hd).1
+  obtain ⟨r1, h1, h2, h3, h4⟩ :=
+    rSeekLoop_found P tsOf _ ds hP1 g j k d hd hk rfl ds.length r hj (Nat.le_refl _) hlen
+  refine ⟨r1, by unfold rSeekTS; rw [List.length_map]; exact h1, ?_⟩
+  have hpos : RPos P ds r1 (fromEntry ds j k) := by
+    right
+    refine ⟨j, d, k + 1, h2, hd, h4, ?_⟩
+    unfold fromEntry
+    rw [getD_ds ds j d hd]
+  obtain ⟨r', xs, h5, h6, _, _⟩ := rReadMany_spec P ds hP1 hP2 g.rd n r1 _ [] h3 hpos
+  exact ⟨r', xs, by simpa using h5, h6⟩
+
+/-- **Rotated + current, absent timestamp.**  Either `not found` is reported and no
+position moved (only buffers were dropped), or some non-empty file lies wholly
+before the timestamp and the reader starts over at the newest entry — it
+never stops anywhere else. -/
+theorem C20_two_files_absent (P : Params) (hP1 : entryLimit ≤ P.maxEntry)
+    (tsOf : Bytes → Int) (ds : List FileDesc) (g : GlobalCtx tsOf ds) (hne : ds ≠ [])
+    (target : Int) (habs : ∀ d ∈ ds, ∀ l ∈ d.lines, tsOf l ≠ target)
+    (r : RState) (hlen : r.files.length = ds.length) :
+    (∃ r', rSeekTS P (ds.map fileOfDesc) tsOf r target = (r', .error .notFound) ∧ SameUpToBuf r r') ∨
+    (∃ r', rSeekTS P (ds.map fileOfDesc) tsOf r target = (r', .ok ()) ∧ RPos P ds r' (allRev ds) ∧
+      ∃ d ∈ ds, d.lines ≠ [] ∧ ∀ l ∈ d.lines, tsOf l < target) := by
+  unfold rSeekTS
+  rw [List.length_map]
+  rcases rSeekLoop_absent P tsOf target ds hP1 g hne habs ds.length r (Nat.le_refl _) hlen with
+    ⟨r', h1, h2⟩ | ⟨r', h1, h2, _, h4⟩
+  · exact Or.inl ⟨r', h1, h2⟩
+  · exact Or.inr ⟨r', h1, h2, h4⟩
+
+/-! ### Non-vacuity: the hypotheses are satisfiable and the conclusions say something -/
+
+/-- Three entries with timestamps 1 < 2 < 3 (`tsOf` = length). -/
+example : SeekCtx (fun l => (l.length : Int)) [[65], [66, 67], [68, 69, 70]] :=
+  ⟨by decide, by decide, by decide⟩
+
+/-- Rotated (one entry) + empty current file: a `GlobalCtx`. -/
+example : GlobalCtx (fun l => (l.length : Int)) [{ lines := [[65], [66, 67]] }, { lines := [] }] :=
+  ⟨by decide, by decide, by decide, by decide⟩
+
+/-- A reader in the middle of a file satisfies `FilePos` (one of two lines left). -/
+example : FilePos goParams [[65], [66, 67]] 1 { position := 1 } :=
+  ⟨by decide, by decide, by intro h; cases h⟩
+
+/-- The monitor really holds a promise after `SeekStart` (it is not vacuously true). -/
+example : (specStep (mkCtx (fun l => (l.length : Int)) [{ lines := [[65], [66, 67]] }])
+    (specInit 1) .start (.start true)).2.rcur = some [[66, 67], [65]] := by decide
+
+/-- …and rejects a reader that skips a line. -/
+example : (checkNext [[66, 67], [65]] 1 1 none (hashLines [[65]])).isSome = true := by decide
+
 end AGH.C20
